@@ -3,6 +3,6 @@
 h="$1"; t="${2:-900}"; n="${h##*::}"
 cd /verif/harness/cli && cp /repo/Cargo.lock . && \
 ( ulimit -v 10000000; CARGO_NET_OFFLINE=true /usr/bin/time -v timeout "$t" cargo kani --harness "$h" --exact -Z stubbing -Z unstable-options \
-  -Z concrete-playback --concrete-playback=print --target-dir /verif/.target/cli \
+  --target-dir /verif/.target/cli \
   --cbmc-args --max-field-sensitivity-array-size 1024 ) > /tmp/cli-$n.log 2>&1
 grep -n "VERIFICATION:-\|Runtime Symex\|variables, .* clauses\|Runtime decision\|\*\* .* failed\|Status: \(FAILURE\|ERROR\|UNSATISFIED\|UNREACHABLE\)\|SATISFIED\|unwinding assertion\|Elapsed (wall\|Maximum resident\|^error\|Verification Time" /tmp/cli-$n.log | grep -v "Status: SUCCESS" | grep -v "Status: UNREACHABLE" | grep -v "variables, .* clauses\|Runtime decision" | head -40; grep "variables, .* clauses" /tmp/cli-$n.log | tail -1; grep -c "Runtime decision" /tmp/cli-$n.log
